@@ -1259,6 +1259,111 @@ def c09_after_with_blocks():
     return c17_with_blocks()
 
 
+# ---------------------------------------------------------------- C08 / C16: where save() writes (SaveTarget.tla)
+
+class _RecTarget(io.BytesIO):
+    """A seekable target that records what save() does to it."""
+
+    def __init__(self, old, start):
+        io.BytesIO.__init__(self, old)
+        io.BytesIO.seek(self, start)
+        self.log = [{'a': 'begin', 'p': start, 'old': len(old)}]
+
+    def write(self, b):
+        n = io.BytesIO.write(self, b)
+        self.log.append({'a': 'write', 'n': len(b), 'p': io.BytesIO.tell(self)})
+        return n
+
+    def writelines(self, lines):
+        for ln in lines:
+            self.write(ln)
+
+    def seek(self, off, whence=0):
+        r = io.BytesIO.seek(self, off, whence)
+        self.log.append({'a': 'seek', 'p': io.BytesIO.tell(self)})
+        return r
+
+    def tell(self):
+        p = io.BytesIO.tell(self)
+        self.log.append({'a': 'tell', 'p': p})
+        return p
+
+    def truncate(self, size=None):
+        self.log.append({'a': 'truncate', 'p': io.BytesIO.tell(self)})
+        return io.BytesIO.truncate(self, size)
+
+    def close(self):
+        self.log.append({'a': 'close', 'p': 0})
+
+    def flush(self):
+        pass
+
+
+_TARGET_CFG = """SPECIFICATION Spec
+CONSTANTS
+ MaxOld = 3
+ MaxWrite = 2
+ MaxOps = 4
+ Discipline = %s
+INVARIANT Contiguous
+INVARIANT NoHoles
+CHECK_DEADLOCK FALSE
+"""
+
+
+def c08_where_save_writes(ctx=None):
+    """SaveTarget.tla: the file is ONE contiguous region of the target, beginning where the target was
+    handed over; a writer may go back inside what it wrote, never relative to the end of the target
+    (TLC: the design with end-relative seeks violates Contiguous).  The write / seek / tell calls of
+    real saves - small and large tracks, targets holding longer, shorter or no content, at offset 0 or
+    inside a container - are validated against it by TLC (SaveTargetTrace)."""
+    mido = _mido()
+    M, MM = mido.Message, mido.MetaMessage
+    out = []
+    if ctx is None:
+        ctx = core.Ctx('C08', 'quick', 0)
+    res = core.run_tlc('SaveTarget', _TARGET_CFG % 'TRUE', timeout=600)
+    ctx.add_tlc(res, 'SaveTarget Discipline=TRUE')
+    if not res.ok:
+        raise core.Machinery('SaveTarget with Discipline=TRUE should satisfy Contiguous: %r' % (res.error,))
+    res = core.run_tlc('SaveTarget', _TARGET_CFG % 'FALSE', timeout=600, expect_error=True)
+    ctx.add_tlc(res, 'SaveTarget Discipline=FALSE (expected to violate Contiguous)')
+    if res.ok or 'Contiguous' not in (res.error or ''):
+        raise core.Machinery('SaveTarget with end-relative seeks should violate Contiguous: %r' % (res.error,))
+    traces, labels, late = [], [], []
+    for nbig in (2, 700, 4096, 30000):
+        for ntracks in (1, 3):
+            mid = mido.MidiFile(type=1, ticks_per_beat=96)
+            mid.tracks.append(mido.MidiTrack([M('note_on', note=i % 128, time=i % 3) for i in range(nbig)]))
+            for k in range(ntracks - 1):
+                mid.tracks.append(mido.MidiTrack([MM('marker', text='t%d' % k, time=0), M('note_on', note=k, time=1)]))
+            ref = io.BytesIO()
+            mid.save(file=ref)
+            ref = ref.getvalue()
+            for oldlen, start in ((0, 0), (len(ref) + 1000, 0), (len(ref) // 2, 0), (len(ref) + 50, 4), (4, 4), (len(ref), 0)):
+                t = _RecTarget(b'\xaa' * oldlen, start)
+                label = '%d-message track + %d tracks into a target holding %d bytes, at offset %d' % (nbig, ntracks - 1, oldlen, start)
+                try:
+                    mid.save(file=t)
+                except Exception as e:
+                    out.append(('target/raises', '%s: %r' % (label, e)))
+                    continue
+                t.log.append({'a': 'end', 'p': io.BytesIO.tell(t)})
+                traces.append(list(t.log))      # (a copy: the object's finaliser calls close())
+                labels.append(label)
+                if io.BytesIO.getvalue(t)[start:start + len(ref)] != ref:
+                    late.append(('target/bytes', '%s: the region written differs from a save into a fresh target' % label))
+    for idx, line in core.validate_batch(ctx, 'SaveTargetTrace', traces, label='SaveTargetTrace'):
+        ev = traces[idx][line - 1] if 0 < line <= len(traces[idx]) else None
+        out.append(('target/' + (ev or {}).get('a', '?'), '%s: call %d of save() on its target is not allowed by SaveTarget: %r '
+                    '(start %d, before it: %r)' % (labels[idx], line, ev, traces[idx][0]['p'], traces[idx][max(0, line - 3):line - 1])))
+    return out[:3] + late[:2]
+
+
+def c16_where_save_writes(ctx=None):
+    return c08_where_save_writes(ctx)
+
+
 # ---------------------------------------------------------------- wiring
 
 def run(ctx, pid):
@@ -1272,8 +1377,11 @@ def run(ctx, pid):
             conc.first_use(ctx, pid, 120 if ctx.tier == 'thorough' else 40)
     for name in sorted(globals()):
         if name.startswith(pre) and callable(globals()[name]):
+            fn = globals()[name]
             try:
-                found = globals()[name]()
+                found = fn(ctx) if fn.__code__.co_argcount else fn()
+            except core.Machinery:
+                raise
             except Exception as e:
                 found = [('crash', '%s: %r' % (name, e))]
             ctx.replayed += 1
